@@ -542,3 +542,23 @@ Proof.
   - apply (res_of_inj _ SBadSig). exact H.
   - apply (res_of_inj _ SBadTime). exact H.
 Qed.
+
+Theorem read_spec t : wf_stsig t ->
+  read_tsig_try_from (tsig_read_rr t) = Ok (read_of t) /\
+  r_time_signed (read_of t) = Some (u48 (t_time t)) /\ r_fudge (read_of t) = Some (t_fudge t) /\
+  r_mac (read_of t) = Some (t_mac t) /\ r_original_id (read_of t) = Some (t_orig_id t) /\
+  r_error (read_of t) = Some (t_error t) /\ r_other (read_of t) = Some (t_other t).
+Proof. intros W. split; [exact (try_from_spec t W)|exact (read_fields t W)]. Qed.
+
+Theorem verify_iff_plain hmac t d m a key now sent_id :
+  wf_stsig t -> wf_smsg m -> canon (t_alg t) = salg_name (alg_s a) ->
+  (now < 281474976710656)%N -> (N.of_nat (length (dmode_mac d)) <= 65535)%N ->
+  (verify hmac (read_of t) (sent_prefix sent_id m) (vmode_of d) a key (be48 now) = Ok tt
+   <-> mac_len_ok (alg_s a) (length (t_mac t)) /\
+       t_mac t = firstn (length (t_mac t)) (hmac a key (spec_digest d m t)) /\
+       time_ok t now).
+Proof.
+  intros W Hm Ha Hn Hd.
+  rewrite (verify_ok_iff hmac t d m a key now sent_id W Hm Ha Hn Hd).
+  unfold spec_accepts, mac_matches, mac_fn_of. rewrite alg_m_s. tauto.
+Qed.
